@@ -10,6 +10,7 @@ import (
 	"fmt"
 	"os"
 	"reflect"
+	"strconv"
 	"strings"
 	"time"
 
@@ -66,11 +67,23 @@ func (h *hstate) apply(s *c05x.ApplyStep, block *blockchain.Block, events []*blo
 			}
 		}()
 		store := diffdb.New(h.database, c05x.StatePrefix)
+		// the consensus-store part of a block may contain snapshots that are restored (a failed transaction)
 		for _, op := range s.Staged {
-			if k := c05x.Unhex(op[1])[1:]; op[0] == "set" {
-				store.Set(k, c05x.Unhex(op[2]))
-			} else {
-				store.Del(k)
+			switch op[0] {
+			case "set":
+				store.Set(c05x.Unhex(op[1])[1:], c05x.Unhex(op[2]))
+			case "del":
+				store.Del(c05x.Unhex(op[1])[1:])
+			case "get":
+				store.Get(c05x.Unhex(op[1])[1:])
+			case "snap":
+				store.Snapshot()
+			case "restore":
+				id, err := strconv.Atoi(op[1])
+				c05x.Must(err)
+				_ = store.RestoreSnapshot(id)
+			default:
+				panic("unknown staged op " + op[0])
 			}
 		}
 		site = "GetFinalizedHeight"
